@@ -2,7 +2,8 @@
    Statements only; proofs are in Proofs/CliContract.v.  Quantification is over every file system,
    every list of paths and every behaviour of decoding, tokenizing, parsing, analysis and rendering. *)
 From Coq Require Import List NArith Bool.
-From Verif Require Import Model.Cli Proofs.CliContract.
+From Coq Require Import Permutation.
+From Verif Require Import Model.Cli Proofs.CliContract Proofs.CliMissing Proofs.CliOrder Proofs.CliOrder2.
 Import ListNotations.
 Open Scope N_scope.
 
@@ -35,6 +36,36 @@ Theorem C13_echo :
   (exit (echo C fs tok_errs parse_err render_err ps) = 0 <->
    forall c, In c cs -> parse_diag C tok_errs parse_err c = [] /\ render_err c = None).
 Proof. exact echo_contract. Qed.
+
+(* a path that does not exist -- at ANY position of the argument list, whatever the other arguments are -- makes check, tokenize
+   and echo exit 1 without an OK line and with the diagnostic about the path (P0023) among those printed *)
+Theorem C13_missing_path_fails :
+  forall (C : Type) fs tok_errs parse_err analysis render_err (ps : list path) p, In p ps -> fs p = Missing C ->
+  let c := check C fs tok_errs parse_err analysis ps in
+  let t := tokenize C fs tok_errs ps in
+  let e := echo C fs tok_errs parse_err render_err ps in
+  (exit c = 1 /\ ok_line c = false /\ In (P_CANON) (coded c)) /\
+  (exit t = 1 /\ ok_line t = false /\ In (P_CANON) (coded t)) /\
+  (exit e = 1 /\ ok_line e = false /\ In (P_CANON) (coded e)).
+Proof. exact missing_path_fails. Qed.
+
+(* the verdict of check (exit status, OK line) is the same for every order of the path arguments, given an analysis whose verdict
+   does not depend on the order of the files (the project hands the analysis its sources sorted by identifier: C11_analysis_input) *)
+Theorem C13_argument_order :
+  forall (C : Type) fs tok_errs parse_err analysis,
+  (forall l l', Permutation l l' -> (analysis l = [] <-> analysis l' = [])) ->
+  forall ps ps' : list path, Permutation ps ps' ->
+  (exit (check C fs tok_errs parse_err analysis ps) = 0 <-> exit (check C fs tok_errs parse_err analysis ps') = 0) /\
+  ok_line (check C fs tok_errs parse_err analysis ps) = ok_line (check C fs tok_errs parse_err analysis ps').
+Proof. exact check_order. Qed.
+
+(* ... and so are the exit statuses of tokenize and echo (tokenize stops at the first file with lexical errors, echo at the first
+   rendering failure: which diagnostics are printed depends on the order, whether the command succeeds does not) *)
+Theorem C13_tokenize_echo_argument_order :
+  forall (C : Type) fs tok_errs parse_err render_err (ps ps' : list path), Permutation ps ps' ->
+  (exit (tokenize C fs tok_errs ps) = 0 <-> exit (tokenize C fs tok_errs ps') = 0) /\
+  (exit (echo C fs tok_errs parse_err render_err ps) = 0 <-> exit (echo C fs tok_errs parse_err render_err ps') = 0).
+Proof. intros. split; [apply tokenize_order | apply echo_order]; assumption. Qed.
 
 (* non-vacuity: a good file and a missing path; a directory with a faulty file *)
 Example C13_example :
